@@ -1,6 +1,7 @@
 import BR.Lemmas.BlobWrite
 import BR.Lemmas.Toy
 import BR.Bridge.Blob
+import BR.Bridge.Backend
 /-!
 # C20 — stored format stays compatible
 
